@@ -50,6 +50,9 @@ Definition obs_eqb (a b : obs) : bool :=
   | _, _ => false
   end.
 
+(* what the handler below the cache answers when a request misses *)
+Inductive down := DAnswer (scope_bits : N) (id : N) | DFail (id : N).
+
 Inductive op :=
   (* file an answer for (q, cd, scope) under key k: SetFromResponseWithKey / SetFromResponseScoped,
      or (neg) NegativeCache.Set of an entry with that identity *)
@@ -72,6 +75,9 @@ Inductive op :=
 | OpCutForge (kname : bytes) (kclass : N) (id : N)
   (* one request through the pipeline; w = wire name of q's name; client = ECS source *)
 | OpServe (wireborn : bool) (w : bytes) (q : question) (cd : bool) (client : option scope) (out : obs)
+  (* a request whose miss is resolved by a scripted downstream handler writing through the cache's
+     ResponseWriter.WriteMsg; out = BMiss means the downstream was reached (and its response admitted) *)
+| OpResolve (wireborn : bool) (w : bytes) (q : question) (cd : bool) (client : option scope) (d : down) (out : obs)
 | OpLookup (q : question) (cd : bool) (out : option N)
 | OpGet (q : question) (cd : bool) (out : obs)
 | OpFail (q : question) (cd : bool) (p : option scope) (out : option N)
@@ -146,6 +152,17 @@ Definition step (s : cstore) (o : op) : cstore * bool :=
   | OpCutForge kn kc id => (forge_cuthash KB bytes_eqb hid s_cut kn kc id s, true)
   | OpServe wb w q cd client out =>
       (s, obs_eqb (obs_of (serve_pipeline KB bytes_eqb hid s_fq s_fz s_cut s wb w q cd client)) out)
+  | OpResolve wb w q cd client d out =>
+      let o := serve_pipeline KB bytes_eqb hid s_fq s_fz s_cut s wb w q cd client in
+      let client' := option_map (fun c => addr_prefix (sc_is4 c) (sc_addr c) (sc_bits c)) client in
+      (match o with
+       | OMiss =>
+           match d with
+           | DAnswer bits id => writeback_answer KB bytes_eqb hid s_fq s_fz q cd client' bits id s
+           | DFail id => writeback_failure KB bytes_eqb hid s_fq q cd client' id s
+           end
+       | _ => s
+       end, obs_eqb (obs_of o) out)
   | OpLookup q cd out =>
       (s, on_eqb (option_map e_id (store_lookup KB bytes_eqb hid s q cd)) out)
   | OpGet q cd out =>
@@ -259,6 +276,18 @@ Fixpoint chase_okb (ss : spec_state) (qt qc : N) (cd : bool) (prev : N) (rest : 
       end
   end.
 
+Definition spec_step_serve (ss : spec_state) (wb : bool) (w : bytes) (q : question) (cd : bool) (client : option scope) (out : obs) : spec_state * bool :=
+      (ss, match out with
+           | BMiss => true
+           | BHit id =>
+               hit_okb ss id q cd (option_map (fun c => addr_prefix (sc_is4 c) (sc_addr c) (sc_bits c)) client) &&
+               (* a wire-born request is judged on the name its wire bytes spell *)
+               (if wb then match pres_of_wire w with Some n => fold_eqb n (q_name q) | None => false end else true)
+           | BCut id => cut_okb ss id q cd (match client with Some _ => true | None => false end)
+           | BFail => existsb (fun f => fail_okb ss (fi_id f) q cd
+                                          (option_map (fun c => addr_prefix (sc_is4 c) (sc_addr c) (sc_bits c)) client)) (ss_fail ss)
+           end).
+
 Definition spec_step (ss : spec_state) (o : op) : spec_state * bool :=
   match o with
   | OpSet _ _ q cd p id => (mk_ss (mk_ident id q cd (normalize_scope p) :: ss_ans ss) (ss_fail ss) (ss_cut ss) (ss_alias ss), true)
@@ -287,17 +316,20 @@ Definition spec_step (ss : spec_state) (o : op) : spec_state * bool :=
   | OpFailSeedQ _ _ _ q cd p id => (mk_ss (ss_ans ss) (mk_fident id false q cd (normalize_scope p) :: ss_fail ss) (ss_cut ss) (ss_alias ss), true)
   | OpFailSeedZ _ _ zone qc id => (mk_ss (ss_ans ss) (mk_fident id true (mk_q zone 0 qc) false None :: ss_fail ss) (ss_cut ss) (ss_alias ss), true)
   | OpCutForge _ _ _ => (ss, true)
-  | OpServe wb w q cd client out =>
-      (ss, match out with
-           | BMiss => true
-           | BHit id =>
-               hit_okb ss id q cd (option_map (fun c => addr_prefix (sc_is4 c) (sc_addr c) (sc_bits c)) client) &&
-               (* a wire-born request is judged on the name its wire bytes spell *)
-               (if wb then match pres_of_wire w with Some n => fold_eqb n (q_name q) | None => false end else true)
-           | BCut id => cut_okb ss id q cd (match client with Some _ => true | None => false end)
-           | BFail => existsb (fun f => fail_okb ss (fi_id f) q cd
-                                          (option_map (fun c => addr_prefix (sc_is4 c) (sc_addr c) (sc_bits c)) client)) (ss_fail ss)
-           end)
+  | OpServe wb w q cd client out => spec_step_serve ss wb w q cd client out
+  | OpResolve wb w q cd client d out =>
+      let client' := option_map (fun c => addr_prefix (sc_is4 c) (sc_addr c) (sc_bits c)) client in
+      match out with
+      | BMiss =>
+          (* the downstream's response was obtained for this question, CD and audience *)
+          (match d with
+           | DAnswer bits id =>
+               mk_ss (mk_ident id q cd (normalize_scope (writeback_scope client' bits)) :: ss_ans ss) (ss_fail ss) (ss_cut ss) (ss_alias ss)
+           | DFail id =>
+               mk_ss (ss_ans ss) (mk_fident id false q cd (normalize_scope client') :: ss_fail ss) (ss_cut ss) (ss_alias ss)
+           end, true)
+      | _ => spec_step_serve ss wb w q cd client out
+      end
   | OpLookup q cd out =>
       (ss, match out with None => true | Some id => hit_okb ss id q cd None end)
   | OpGet q cd out =>
@@ -339,6 +371,9 @@ Fixpoint purge_spec (purged : list question) (ops : list op) : bool :=
       | OpSet _ _ q _ _ _ | OpReplace _ _ q _ _ | OpSetAlias _ q _ _ _ =>
           purge_spec (filter (fun pq => negb (fold_eqb (q_name pq) (q_name q) && (q_type pq =? q_type q) && (q_class pq =? q_class q))) purged) r
       | OpServe _ _ q _ _ (BHit _) => negb (same q) && purge_spec purged r
+      | OpResolve _ _ q _ _ _ (BHit _) => negb (same q) && purge_spec purged r
+      | OpResolve _ _ q _ _ (DAnswer _ _) BMiss =>
+          purge_spec (filter (fun pq => negb (fold_eqb (q_name pq) (q_name q) && (q_type pq =? q_type q) && (q_class pq =? q_class q))) purged) r
       | OpServeChase _ q _ (_ :: _) => negb (same q) && purge_spec purged r
       | OpLookup q _ (Some _) => negb (same q) && purge_spec purged r
       | OpGet q _ (BHit _) => negb (same q) && purge_spec purged r
